@@ -1207,6 +1207,31 @@ pub fn run_c02(ctx: &Ctx) -> Report {
   }
   report.rule.push_str("; default locations under every spelling of the input (`.`, `..`, `x/..` detours, doubled and trailing separators, relative and absolute, from three working directories): the torrent appears beside the resolved input and nowhere else, verify without --content finds its way back (against Imdlv.Paths.createDefaultOutput / default_locations_inverse)");
   super::paths::run(ctx, "C02", &mut report);
+  // the torrent taken from standard output (`--output - > file`), with a comment of two lines in front of a long file list:
+  // it verifies like the one written to a path, and is the same bytes
+  if ctx.replay.is_none() || super::replay_cases(ctx).map(|rc| rc.iter().any(|v| v.get("through_standard_output").is_some())).unwrap_or(false) {
+    let sb = Sandbox::new(&ctx.work, "c02o");
+    for i in 0..60 {
+      sb.write(&format!("in/album/disc-{}/track-number-{i:02}-of-sixty.flac", i % 3), &[i as u8; 7]);
+    }
+    let case = json!({"through_standard_output": "60 files, one piece, a two-line comment"});
+    report.case(Some(fnv_str(&case.to_string())));
+    report.hit("history:torrent-through-standard-output");
+    let common = ["torrent", "create", "--input", "in/album", "--piece-length", "16KiB", "--comment", "first line\nsecond line", "--no-creation-date"];
+    let mut a: Vec<&str> = common.to_vec();
+    a.extend(["--output", "-"]);
+    let c1 = Cmd::new(&ctx.imdl, &a).cwd(&sb.root).literal().stdout_to(&sb.path("in/piped.torrent")).run();
+    let mut b: Vec<&str> = common.to_vec();
+    b.extend(["--output", "in/direct.torrent"]);
+    let c2 = Cmd::new(&ctx.imdl, &b).cwd(&sb.root).literal().run();
+    let v = Cmd::new(&ctx.imdl, &["torrent", "verify", "--input", "in/piped.torrent", "--content", "in/album"]).cwd(&sb.root).run();
+    let (piped, direct) = (std::fs::read(sb.path("in/piped.torrent")).unwrap_or_default(), std::fs::read(sb.path("in/direct.torrent")).unwrap_or_default());
+    if !c1.ok() || !c2.ok() || !v.ok() {
+      report.fail("property", "verify-after-create", case, format!("create -o - exit {:?}, create -o file exit {:?}, verify of the piped torrent exit {:?}: {}", c1.code, c2.code, v.code, v.stderr_s().lines().last().unwrap_or("")));
+    } else if piped != direct {
+      report.fail("property", "verify-after-create", case, format!("the torrent taken from standard output has {} bytes, the one written to a path {}", piped.len(), direct.len()));
+    }
+  }
   // a wide tree: over a thousand files, every one of them shallow (limits are per path, not per torrent)
   if ctx.replay.is_none() || super::replay_cases(ctx).map(|rc| rc.iter().any(|v| v.get("wide_tree").is_some())).unwrap_or(false) {
     let sb = Sandbox::new(&ctx.work, "c02w");
